@@ -30,7 +30,7 @@ def escape(ck, agg, b):
     b.model.opaque[P.method(rf, "available").qualname] = rec_avail
     n = 0
     try:
-        st = b.fresh({0x11: 32}, fields={"_curr_freq": Const(0)})
+        st = b.fresh({0x11: 32}, fields={b.freq_index_field(): Const(0)})
         it = Interp(P, b.model, Limits(max_paths=60000, loop_unroll=3, depth=12, concrete_loop=40))
         it.collect = set(COLLECT)
         outs = it.run(f, b.cls, b.ref, [], st=st)
@@ -168,8 +168,14 @@ def signedness(ck, agg):
     ck.absorb(it)
     ck.analysed(f_set)
     enc_bits, enc_fmt, may_neg = None, None, None
+    enc_order = None
     for out in outs:
         for e in out.trace:
+            if e.kind == "to_bytes":
+                # int.to_bytes(n, order): the same statement about byte order as a struct format
+                o_ = e.data[1][1] if len(e.data[1]) > 1 else None
+                enc_order = norm(o_).v if o_ is not None and isinstance(norm(o_), Const) else None
+                may_neg = True
             if e.kind == "packarg":
                 enc_fmt = e.data[0]
                 iv = interval(norm(e.data[2]))
@@ -202,7 +208,14 @@ def signedness(ck, agg):
                 not (may_neg and signed and top_const_zero and same_on_all),
                 "the encoder keeps 24 bits of int(value*100) (two's complement for negative values) but the decoder pads the 3 data bytes with a constant zero byte before "
                 "struct.unpack(%r): the result can never be negative, e.g. -1.0 C decodes as 167771.16" % (fmt,), ups[0].node)
-        agg.add("R19.4", f_get, "the decoder reads the same byte order the encoder wrote", (enc_fmt or "").lstrip("<=")[:1].lower() == fmt.lstrip("<=")[:1].lower() and order in ("<", "", "="), "encoder %r decoder %r" % (enc_fmt, fmt))
+        if enc_fmt is not None:
+            e_order = "big" if parse_fmt(enc_fmt)[0] in (">", "!") else "little"
+        else:
+            e_order = enc_order
+        d_order = "big" if order in (">", "!") else "little"
+        if e_order is None:
+            raise AnalysisError("TemperatureServiceData: how the setter encodes the value is not understood (no struct.pack / int.to_bytes seen)")
+        agg.add("R19.4", f_get, "the decoder reads the same byte order the encoder wrote", e_order == d_order, "encoder %s-endian (%r), decoder %s-endian (%r)" % (e_order, enc_fmt or "to_bytes", d_order, fmt))
     n_sc = scalar_codecs(ck, agg)
     return 3 + n_sc
 
@@ -395,12 +408,25 @@ def url_tables(ck, agg):
                     for t2 in order[:i]:
                         agg.add("R19.6", f, "the encoder compresses a longer expansion before a shorter one it starts with (.com/ before .com)", not (t1.startswith(t2) and t1 != t2),
                                 "%r is compressed before %r" % (t2, t1))
-        pairs[direction] = seen
         got_p = {c: t for c, t, isp in seen if isp}
         got_e = {c: t for c, t, isp in seen if not isp}
-        agg.add("R19.6", f, "the %s uses the Eddystone scheme-prefix table" % direction, got_p == pref, "%s prefixes %r" % (direction, got_p))
-        agg.add("R19.6", f, "the %s uses the Eddystone expansion table" % direction, got_e == exp, "%s expansions %r" % (direction, got_e))
-    agg.add("R19.6", g, "URL encoder and decoder use the same code tables", pairs["decoder"] == pairs["encoder"], "decoder-only %r, encoder-only %r" % (sorted(pairs["decoder"] - pairs["encoder"]), sorted(pairs["encoder"] - pairs["decoder"])))
+        # a direction that handles a table without `replace` (e.g. indexes the prefix table by the first character) shows no events for
+        # it: then the class-level table itself is compared with the specification instead
+        if got_p:
+            agg.add("R19.6", f, "the %s uses the Eddystone scheme-prefix table" % direction, got_p == pref, "%s prefixes %r" % (direction, got_p))
+        if got_e:
+            agg.add("R19.6", f, "the %s uses the Eddystone expansion table" % direction, got_e == exp, "%s expansions %r" % (direction, got_e))
+        pairs[direction] = (got_p, got_e)
+    for k_, what in ((0, "scheme-prefix"), (1, "expansion")):
+        a_, b_ = pairs["decoder"][k_], pairs["encoder"][k_]
+        if a_ and b_:
+            agg.add("R19.6", g, "URL encoder and decoder use the same %s codes" % what, a_ == b_, "decoder %r, encoder %r" % (a_, b_))
+    try:
+        tp, te = P.class_const(u, "codex_prefix"), P.class_const(u, "codex_suffix")
+    except ValueError:
+        tp = te = None
+    agg.add("R19.6", (u.module.relpath, "UrlServiceData"), "the class-level code tables are the Eddystone tables in specification order",
+            tp is not None and list(tp) == [pref[i] for i in sorted(pref)] and list(te) == [exp[i] for i in sorted(exp)], "codex_prefix %r codex_suffix %r" % (tp, te))
     return 2
 
 
